@@ -1181,6 +1181,9 @@ class Structure(UniqueMixin, metaclass=StructMeta):
                     self, ENABLE_UNDEFINED, False
             ):
                 getattr(self, "_none_fields").add(key)
+                # an explicit None replaces whatever the field held: it must not keep reading the old value
+                if not getattr(self.get_all_fields_by_name()[key], IS_IMMUTABLE, False):
+                    self.__dict__.pop(key, None)
             return
 
         # an assignment that is rejected - by the field, by a check the field makes after it stored
